@@ -24,6 +24,7 @@ import (
 
 	"verif/internal/fw"
 	"verif/internal/run"
+	"verif/internal/val"
 )
 
 // ---------------------------------------------------------------------
@@ -89,6 +90,36 @@ func checkDerivedExpr(what, text string, prep, ansi bool) *fw.Violation {
 		return fw.V(what+"_string_differs", "%s: the %s text %s parses to a %s that prints %s", mode, what, clipq(text), typeName(e), clipq(s2))
 	}
 	return nil
+}
+
+// isBareNameNeedingQuotes: text is a column name, or view.column, that parses as a field reference once its parts are
+// quoted as identifiers (and does not parse as it stands).
+func isBareNameNeedingQuotes(text string, prep, ansi bool) bool {
+	isRef := func(s string) bool {
+		e, _ := parseAsField(s, prep, ansi)
+		if e == nil {
+			return false
+		}
+		switch e.(type) {
+		case parser.FieldReference, parser.Identifier:
+			return true
+		}
+		return false
+	}
+	if isRef(text) {
+		return false
+	}
+	if isRef(val.QuoteIdent(text)) {
+		return true
+	}
+	for i := 0; i < len(text); i++ {
+		if text[i] == '.' && i > 0 && i < len(text)-1 {
+			if isRef(val.QuoteIdent(text[:i]) + "." + val.QuoteIdent(text[i+1:])) {
+				return true
+			}
+		}
+	}
+	return false
 }
 
 func typeName(x interface{}) string {
@@ -452,10 +483,11 @@ func checkLabels(c lblCase) (fw.Outcome, *fw.Violation) {
 		}
 		if v := checkDerivedExpr("message_text", text, c.Prepared, c.Ansi); v != nil {
 			v.Sig += ":" + name
-			if _, isNode := printsOfTree(out.stmts[0])[text]; !isNode {
-				// the quoted text is not the print of a node of the query: csvq built the expression itself (a reference made
-				// from a column name)
-				v.Sig += ":not_a_node"
+			if _, isNode := printsOfTree(out.stmts[0])[text]; !isNode && isBareNameNeedingQuotes(text, c.Prepared, c.Ansi) {
+				// the quoted text is not the print of a node of the query: csvq built the reference itself from a column name
+				// (optionally qualified by a view name) and printed the name without the quotes it needs. One root cause
+				// whatever the message: it has a signature of its own
+				v.Sig = "message_text_reparse_fails:unquoted_name_built_by_csvq"
 			}
 			v.Msg = fmt.Sprintf("%s (query %s, message %q)", v.Msg, clipq(q1), a.errMsg)
 			return o, v
